@@ -140,17 +140,19 @@ Proof. exact aborted_then_open. Qed.
 (** * Offline buffer *)
 
 (** For every history of emits (volatile or not, with or without ack, any number of attachments),
-    manager opens, CONNECT replies, closes and received events: the frames handed to the manager so
+    manager opens, CONNECT replies, closes, received events and expiring ack time-outs (which drop the
+    parked packet they belong to - all of its frames): the frames handed to the manager so
     far, followed by the frames still parked, are exactly the frames of the emits made while
-    connected and of the non-volatile emits made while not connected - each once, in emission
-    order, the frames of one packet contiguous.  (So nothing is lost, duplicated or reordered.) *)
+    connected and of the non-volatile emits made while not connected whose time-out did not expire
+    while they were parked - each once, in emission order, whole packets (all frames of a packet or
+    none, contiguous).  (So nothing is lost, duplicated, reordered or torn.) *)
 Theorem C15_offline_exactly_once_in_order : forall h,
-  efr (fst (run init h)) ++ efr (sendBuf (snd (run init h))) = entitled Disconnected h.
+  efr (fst (run init h)) ++ efr (sendBuf (snd (run init h))) = entitled Disconnected 0 h.
 Proof. exact offline_exactly_once_in_order. Qed.
 
 (** After a CONNECT reply nothing is parked: everything entitled has been handed over. *)
 Theorem C15_delivered_after_connect : forall h,
-  efr (fst (run init (h ++ [ConnectReply]))) = entitled Disconnected (h ++ [ConnectReply]).
+  efr (fst (run init (h ++ [ConnectReply]))) = entitled Disconnected 0 (h ++ [ConnectReply]).
 Proof. exact delivered_after_reply. Qed.
 
 (** While not connected an emit hands nothing over; the CONNECT reply hands over exactly the
@@ -160,7 +162,7 @@ Theorem C15_offline_emit_waits : forall s l vol ack att,
 Proof. exact offline_emit_silent. Qed.
 
 Theorem C15_reply_hands_over_offline_emits : forall h,
-  efr (fst (step (snd (run init h)) ConnectReply)) = offline_pending Disconnected [] h.
+  efr (fst (step (snd (run init h)) ConnectReply)) = efr (offline_pending Disconnected 0 [] h).
 Proof. exact reply_hands_over_pending. Qed.
 
 (** A volatile emit made while not connected is never handed over, whatever happens later. *)
@@ -198,6 +200,12 @@ Example C15_example_aborted :
   = [EOpen; EClose; EAttempt 1 10; EError; EReconnectError; EAttempt 2 20; EError; EReconnectError; EClose;
      EOpen; EClose; EAttempt 1 10; EError; EReconnectError; EAttempt 2 20; EError; EReconnectError;
      EAttempt 3 40; EError; EReconnectError; EReconnectFailed].
+Proof. vm_compute. reflexivity. Qed.
+
+Example C15_example_timeout :
+  let h := [Emit 1 false false 0; Emit 2 false true 2; Emit 3 false true 1; Timeout 0; Emit 4 false false 0;
+            MgrOpen; ConnectReply]%N in
+  efr (fst (run init h)) = [(1%N, 0%nat); (3%N, 0%nat); (3%N, 1%nat); (4%N, 0%nat)].
 Proof. vm_compute. reflexivity. Qed.
 
 Example C15_example_offline :
